@@ -13,6 +13,7 @@ Step(q) ==
   ELSE LET c == CASE q.k = "fit" -> Fit(q)
                   [] q.k = "points" -> Points(q)
                   [] q.k = "curve" -> Curve(q)
+                  [] q.k = "order" -> OrderIndependent(q)
        IN [ok |-> c = "", clause |-> c]
 
 ASSUME JsonSerialize(IOEnv.X_OUT, [i \in 1..Len(Q) |-> Step(Q[i])])
